@@ -15,6 +15,11 @@ process and after every history" is compared through them).
 list of strings in the config) are iterated in pairwise DIFFERENT set orders, so that a `list(set(names))` feeding an
 index-based choice cannot hide behind two interpreters that happen to agree.
 
+PROCESS HISTORY: a variant may carry `warm` = indices into `spec["warm"]` (other scenarios as YAML + a number of steps): the worker
+builds, steps, resets and closes those environments FIRST and only then runs the case, so that anything that survives between games
+in one interpreter (class attributes, module-level objects, registries, the global generators) has a non-default value when the case
+starts. The case's lines must equal those of a worker that started fresh.
+
 The worker half (`python -m harness.rigs.xproc`) imports primaite; the parent half does not.
 """
 from __future__ import annotations
@@ -165,6 +170,25 @@ def worker_main() -> int:
         io = dict(cfg.get("io_settings") or {})
         io.update(LOUD_IO if spec.get("loud") else QUIET_IO)
         cfg["io_settings"] = io
+        # -- process history: other games are built, played and closed in this interpreter before the case starts
+        for wi in (spec.get("warm_idx") or []):
+            w = spec["warm"][wi]
+            try:
+                wcfg = yaml.safe_load(w["cfg_yaml"])
+                wio = dict(wcfg.get("io_settings") or {})
+                wio.update(QUIET_IO)
+                wcfg["io_settings"] = wio
+                wenv = PrimaiteGymEnv(env_config=wcfg)
+                for _ in range(int(w.get("steps", 3))):
+                    wenv.step(0)
+                if w.get("reset"):
+                    wenv.reset()
+                    wenv.step(0)
+                wenv.close()
+                del wenv
+            except Exception as e:  # a warm-up that cannot run is reported (and makes this worker's stream differ)
+                emit({"warmup": wi, "raised": type(e).__name__, "msg": str(e)[:200]})
+        canon.ids.clear()
         env = PrimaiteGymEnv(env_config=cfg)
 
         def hist():
@@ -262,7 +286,7 @@ def run_workers(spec: Dict, variants: List[Dict], repo: Path, verif: Path, timeo
                    "TMPDIR": str(home), "XDG_CONFIG_HOME": str(home / ".config"), "XDG_DATA_HOME": str(home / ".local"),
                    "XDG_STATE_HOME": str(home / ".state"), "XDG_CACHE_HOME": str(home / ".cache")}
             s = {k: x for k, x in spec.items() if k != "cfg"}
-            s.update(cfg_yaml=cfg_yaml, loud=bool(v.get("loud")), pin=v.get("pin"))
+            s.update(cfg_yaml=cfg_yaml, loud=bool(v.get("loud")), pin=v.get("pin"), warm_idx=list(v.get("warm") or []))
             p = subprocess.Popen([sys.executable, "-m", "harness.rigs.xproc"], cwd=str(verif), env=env, stdin=subprocess.PIPE,
                                  stdout=subprocess.PIPE, stderr=subprocess.PIPE, text=True)
             p.stdin.write(json.dumps(s))
